@@ -519,7 +519,7 @@ def obligations(tier: str):
     funcs = [tk.Tokenizer.main_loop, tk.Tokenizer.identifier_or_label, tk.Tokenizer.number, tk.Tokenizer.peek, tk.Tokenizer.accept,
              tk.Tokenizer.pop, tk.Tokenizer.consume, tk.Tokenizer.push, tk.Tokenizer.ignore, tk.Identifier.__post_init__]
     obs = []
-    maxlen = 5 if tier == "quick" else 7
+    maxlen = 5 if tier == "quick" else 6
     for prev in PREV:
         for L in range(1, maxlen + 1):
             o = Obligation("tok.%s.%d" % (prev, L), make_tok_harness(prev, L),
@@ -532,7 +532,7 @@ def obligations(tier: str):
     pf = [pm.Parser.process, pm.Parser.main_loop, pm.Parser.connection, pm.Parser.element, pm.Parser.parameters, pm.Parser.subcircuit,
           pm.Parser.param, pm.Parser.param_limit, pm.Parser.migrate, pm.Parser.accept, pm.Parser.expect, pm.Parser.expect_number,
           pm.Parser.pop_token, pm.Parser.pop_stack, pm.Parser.peek]
-    maxtok = 4 if tier == "quick" else 6
+    maxtok = 4 if tier == "quick" else 5
     for n in range(1, maxtok + 1):
         o = Obligation("parse.%d" % n, make_parse_harness(n),
                        bounds="Parser.process over every list of %d tokens: 16 token classes decided lazily, identifier texts from %r, "
